@@ -30,11 +30,11 @@ ASSUMPTIONS = [
     "L2 anomalies (non-LIFO uncover, uncover not the inverse of cover) are events, not violations (DESIGN section 3)",
 ]
 STRATA = [
-    ("random", 5000, 60000),
-    ("planted", 3000, 40000),
-    ("dense", 1000, 12000),
-    ("structured", 240, 2400),
-    ("limits", 1800, 24000),
+    ("random", 5000, 40000),
+    ("planted", 3000, 26000),
+    ("dense", 1000, 8000),
+    ("structured", 240, 1600),
+    ("limits", 1800, 16000),
     ("exh-small", 1, 1),
     ("exh-3x3", 1, 1),
     ("exh-2x4", 1, 1),
@@ -51,8 +51,8 @@ REQUIRED_EVENTS = {"any": ["xc.cover-valid", "xc.all.complete", "xc.infeasible-i
 _dlx = None
 _mon = None
 _St = None
-BUDGET_SMALL = 400_000   # matrices with <= 20 rows (clean tree needs < 30 000)
-BUDGET_LARGE = 4_000_000
+BUDGET_SMALL = 60_000   # matrices with <= 20 rows (clean tree needs < 1 000 steps)
+BUDGET_LARGE = 2_000_000   # clean tree: < 280 000 steps in the thorough tier (7-queens, find_all)
 
 
 def setup():
